@@ -927,6 +927,229 @@ func TestVerifConsts(t *testing.T) {
 	}
 }
 
+// ---------------------------------------------------------------------------
+// free-running stress under the race detector: concurrent senders against a client that
+// answers in random order and fails at a random point; only the property's invariants
+// are checked (no schedule is forced, nothing is compared with the model).
+// ---------------------------------------------------------------------------
+type verifC10Loose struct {
+	rng      *rand.Rand
+	failKind int // 0 none (answer all, exit at stdin EOF), 1 exit ok, 2 exit err, 3 unknown, 4 dup answer, 5 oversize, 6 garbage, 7 truncated, 8 close stdout and keep reading
+	failAt   int
+	batch    int
+}
+
+func (c *verifC10Loose) run(ctx context.Context, _ []string, in io.ReadCloser, out, _ io.WriteCloser) error {
+	reqs := make(chan string, 1024)
+	go func() {
+		defer close(reqs)
+		for {
+			req := &conformancev1.ClientCompatRequest{}
+			if err := internal.ReadDelimitedMessage(in, req, "verif", time.Minute, 1<<24); err != nil {
+				return
+			}
+			reqs <- req.TestName
+		}
+	}()
+	write := func(b []byte) bool {
+		done := make(chan error, 1)
+		go func() { _, err := out.Write(b); done <- err }()
+		select {
+		case err := <-done:
+			return err == nil
+		case <-ctx.Done():
+			return false
+		}
+	}
+	respBytes := func(name string) []byte {
+		var b bytes.Buffer
+		_ = internal.WriteDelimitedMessage(&b, &conformancev1.ClientCompatResponse{
+			TestName: name,
+			Result:   &conformancev1.ClientCompatResponse_Error{Error: &conformancev1.ClientErrorResult{Message: "t:" + name}},
+		})
+		return b.Bytes()
+	}
+	answered := 0
+	var last string
+	var held []string
+	flush := func() (bool, error) {
+		c.rng.Shuffle(len(held), func(i, j int) { held[i], held[j] = held[j], held[i] })
+		for _, n := range held {
+			if c.failKind != 0 && answered >= c.failAt {
+				switch c.failKind {
+				case 1:
+					return true, nil
+				case 2:
+					return true, errVerifC10Exit
+				case 3:
+					write(respBytes("nobody-asked"))
+				case 4:
+					if last == "" {
+						return true, nil
+					}
+					write(respBytes(last))
+				case 5:
+					write([]byte{0x7f, 0xff, 0xff, 0xff, 1, 2})
+				case 6:
+					write([]byte{0, 0, 0, 3, 10, 5, 97})
+				case 7:
+					b := respBytes(n)
+					write(b[:1+c.rng.Intn(len(b)-1)])
+					return true, nil
+				case 8:
+					_ = out.Close()
+					for range reqs {
+					}
+					return true, nil
+				}
+				<-ctx.Done() // the runner aborts a client that misbehaved
+				return true, nil
+			}
+			if !write(respBytes(n)) {
+				return true, nil
+			}
+			answered++
+			last = n
+		}
+		held = held[:0]
+		return false, nil
+	}
+	for {
+		select {
+		case n, ok := <-reqs:
+			if !ok {
+				if stop, err := flush(); stop {
+					return err
+				}
+				return nil
+			}
+			held = append(held, n)
+			if len(held) >= c.batch {
+				if stop, err := flush(); stop {
+					return err
+				}
+			}
+		case <-ctx.Done():
+			return nil
+		}
+	}
+}
+
+func TestVerifC10Race(t *testing.T) {
+	out := os.Getenv("VERIF_OUT")
+	if out == "" {
+		t.Skip("VERIF_OUT not set")
+	}
+	rounds, _ := strconv.Atoi(os.Getenv("VERIF_C10_ROUNDS"))
+	if rounds <= 0 {
+		rounds = 100
+	}
+	seed, _ := strconv.ParseInt(os.Getenv("VERIF_SEED"), 10, 64)
+	rng := rand.New(rand.NewSource(seed*7919 + 10))
+	problem := ""
+	total, accepted, refused, failedRounds := 0, 0, 0, 0
+	for round := 0; round < rounds && problem == ""; round++ {
+		nSenders := 1 + rng.Intn(8)
+		perSender := 1 + rng.Intn(12)
+		client := &verifC10Loose{rng: rand.New(rand.NewSource(rng.Int63())), failKind: rng.Intn(9), batch: 1 + rng.Intn(6)}
+		if rng.Intn(3) == 0 {
+			client.failKind = 0
+		}
+		client.failAt = rng.Intn(nSenders*perSender + 1)
+		runner, err := runClient(context.Background(), runInProcess([]string{"verif-c10-race"}, client.run))
+		if err != nil {
+			problem = "problem: runClient: " + err.Error()
+			break
+		}
+		type call struct {
+			name  string
+			ret   error
+			fires atomic.Int64
+			bad   atomic.Bool
+		}
+		var mu sync.Mutex
+		var calls []*call
+		var wg sync.WaitGroup
+		for s := 0; s < nSenders; s++ {
+			wg.Add(1)
+			go func(s int, dupes bool) {
+				defer wg.Done()
+				for k := 0; k < perSender; k++ {
+					name := fmt.Sprintf("S%d/case%d", s, k)
+					if dupes && k%3 == 2 {
+						name = fmt.Sprintf("shared/case%d", k)
+					}
+					c := &call{name: name}
+					c.ret = runner.sendRequest(&conformancev1.ClientCompatRequest{TestName: name},
+						func(n string, resp *conformancev1.ClientCompatResponse, err error) {
+							c.fires.Add(1)
+							if n != name || (resp == nil) == (err == nil) {
+								c.bad.Store(true)
+							}
+							if resp != nil && (resp.TestName != name || resp.GetError().GetMessage() != "t:"+name) {
+								c.bad.Store(true)
+							}
+						})
+					mu.Lock()
+					calls = append(calls, c)
+					mu.Unlock()
+				}
+			}(s, rng.Intn(2) == 0)
+		}
+		sent := make(chan struct{})
+		go func() { wg.Wait(); close(sent) }()
+		select {
+		case <-sent:
+		case <-time.After(60 * time.Second):
+			problem = fmt.Sprintf("problem: round %d: a sendRequest call never returned (client kind %d)", round, client.failKind)
+			continue
+		}
+		runner.closeSend()
+		waited := make(chan error, 1)
+		go func() { waited <- runner.waitForResponses() }()
+		select {
+		case <-waited:
+		case <-time.After(60 * time.Second):
+			problem = fmt.Sprintf("problem: round %d: waitForResponses did not return (client kind %d)", round, client.failKind)
+			continue
+		}
+		if !verifC10Until(func() bool { return !runner.isRunning() }) {
+			problem = fmt.Sprintf("problem: round %d: isRunning() still true after the client ended and waitForResponses returned (client kind %d)", round, client.failKind)
+			continue
+		}
+		if err := runner.sendRequest(&conformancev1.ClientCompatRequest{TestName: "after-the-end"}, func(string, *conformancev1.ClientCompatResponse, error) {}); err == nil {
+			problem = fmt.Sprintf("problem: round %d: a request sent after the end was accepted", round)
+			continue
+		}
+		anyRefused := false
+		for _, c := range calls {
+			total++
+			n := c.fires.Load()
+			switch {
+			case c.bad.Load():
+				problem = fmt.Sprintf("problem: round %d: callback of %q got another test's response, or neither/both of response and error", round, c.name)
+			case c.ret == nil && n != 1:
+				problem = fmt.Sprintf("problem: round %d: request %q was accepted but its callback fired %d times (client kind %d)", round, c.name, n, client.failKind)
+			case c.ret != nil && n != 0:
+				problem = fmt.Sprintf("problem: round %d: request %q was refused but its callback fired %d times", round, c.name, n)
+			}
+			if c.ret == nil {
+				accepted++
+			} else {
+				refused++
+				anyRefused = true
+			}
+		}
+		if anyRefused {
+			failedRounds++
+		}
+	}
+	if problem == "" {
+		problem = fmt.Sprintf("ok rounds=%d requests=%d accepted=%d refused=%d rounds_with_refusals=%d", rounds, total, accepted, refused, failedRounds)
+	}
+	if err := os.WriteFile(out, []byte(problem+"\n"), 0o644); err != nil {
+		t.Fatal(err)
+	}
+}
+
 var _ = sort.Strings
-var _ = strconv.Itoa
-var _ = rand.Int
